@@ -9,35 +9,57 @@ import (
 // modSet infers the set of heap names fn may write (transitively). "*" means unknown.
 // The inference is syntactic over SSA and errs on the side of "*".
 func (P *Program) modSet(fn *ssa.Function) map[string]bool {
-	if m, ok := P.mods[fn]; ok {
+	if P.modFinal[fn] {
+		return P.mods[fn]
+	}
+	if P.modFinal == nil {
+		P.modFinal = map[*ssa.Function]bool{}
+	}
+	for round := 0; round < 50; round++ {
+		P.modVisited = map[*ssa.Function]bool{}
+		P.modChanged = false
+		P.modCompute(fn)
+		if !P.modChanged {
+			break
+		}
+	}
+	for f := range P.modVisited {
+		P.modFinal[f] = true
+	}
+	return P.mods[fn]
+}
+
+// modCompute is one depth-first pass of the fixpoint iteration.
+func (P *Program) modCompute(fn *ssa.Function) map[string]bool {
+	if P.modFinal[fn] || P.modVisited[fn] {
+		if m := P.mods[fn]; m != nil {
+			return m
+		}
+		return map[string]bool{}
+	}
+	P.modVisited[fn] = true
+	m := map[string]bool{}
+	for k := range P.mods[fn] {
+		m[k] = true
+	}
+	all := func() { m["*"] = true }
+	finish := func() map[string]bool {
+		if len(m) != len(P.mods[fn]) || P.mods[fn] == nil {
+			P.modChanged = true
+		}
+		P.mods[fn] = m
 		return m
 	}
-	if P.modBusy[fn] {
-		P.modCycleHits++
-		return map[string]bool{} // recursion: contributes nothing new on this path
-	}
-	m := map[string]bool{}
-	all := func() { m["*"] = true }
 	if ms, ok := externalMods(fn); ok {
 		for _, k := range ms {
 			m[k] = true
 		}
-		P.mods[fn] = m
-		return m
+		return finish()
 	}
-	if fn.Blocks == nil {
+	if fn.Blocks == nil || m["*"] {
 		all()
-		P.mods[fn] = m
-		return m
+		return finish()
 	}
-	P.modBusy[fn] = true
-	hits0 := P.modCycleHits
-	defer func() {
-		delete(P.modBusy, fn)
-		if P.modCycleHits != hits0 && len(P.modBusy) > 0 {
-			delete(P.mods, fn) // computed inside a cycle: not reusable
-		}
-	}()
 	tt := P.tt
 	var addType func(t types.Type)
 	addType = func(t types.Type) {
@@ -167,18 +189,18 @@ func (P *Program) modSet(fn *ssa.Function) map[string]bool {
 						continue
 					}
 				}
-				for k := range P.modSet(callee) {
+				for k := range P.modCompute(callee) {
 					m[k] = true
 				}
 				// closures passed as arguments may run
 				for _, a := range c.Args {
 					if mc, ok := a.(*ssa.MakeClosure); ok {
-						for k := range P.modSet(mc.Fn.(*ssa.Function)) {
+						for k := range P.modCompute(mc.Fn.(*ssa.Function)) {
 							m[k] = true
 						}
 					} else if _, isSig := a.Type().Underlying().(*types.Signature); isSig {
 						if _, isFn := a.(*ssa.Function); isFn {
-							for k := range P.modSet(a.(*ssa.Function)) {
+							for k := range P.modCompute(a.(*ssa.Function)) {
 								m[k] = true
 							}
 						} else {
@@ -186,11 +208,13 @@ func (P *Program) modSet(fn *ssa.Function) map[string]bool {
 						}
 					}
 				}
+				if m["*"] {
+					return finish()
+				}
 			}
 		}
 	}
-	P.mods[fn] = m
-	return m
+	return finish()
 }
 
 func isPtrLike(t types.Type) bool {
